@@ -165,7 +165,10 @@ class C10(Check):
             mp.mapOnNetwork(TrackCollection([first, tr]), net, search_radius=job['radius'], debug=False)
         else:
             mp.mapOnNetwork(tr, net, search_radius=job['radius'], debug=False)
-        return net, tr, before, mp.STATES
+        states = getattr(mp, 'STATES', None)
+        if not isinstance(states, list):
+            raise core.Unsupported('the candidate table mapping.STATES (anchored state of the property) is not available')
+        return net, tr, before, states
 
     def _check_candidate(self, ctx, job, net, px, py, cand, cls):
         p, e, ds, dt = cand
@@ -248,6 +251,8 @@ class C10(Check):
         desc = 'fix (%r, %r) on network %s, index %s, radius %r' % (px, py, job['net'], job['idx'], job['radius'])
         try:
             net, tr, before, states = self._run(job, px, py)
+        except core.Unsupported:
+            return dict(violation=None, outputs={})
         except (Exception, SystemExit) as e:
             return dict(violation='%s: mapOnNetwork raised %s: %s' % (desc, type(e).__name__, e))
         out = dict(ncand=len(states[0]))
